@@ -25,7 +25,7 @@ SHIMS = {
 PROPS = {
     'C03': dict(
         title='origin map',
-        units=['pt', 'arms', 'rtmu', 'glue', 'derive', 'getstr', 'prologue'],
+        units=['pt', 'arms', 'rtmu', 'glue', 'derive', 'getstr', 'prologue', 'wrap'],
         shims=['A-btree', 'A-str', 'A-path/fs', 'A-arith', 'A-glue'],
         design='DESIGN.md 3/C03',
         technique='contract-based deductive verification (Verus) of the real PreprocessedText/Range code extracted from /repo on every run',
@@ -85,7 +85,7 @@ PROPS['C16'] = dict(
 ARMS_NOTE = 'The arms of preprocess_str are verified one by one (rule R-arm); the loop around them is verified in unit glue with the arm bodies outlined (A-glue): it establishes every arm precondition from one grammar invariant, keeps the text well formed, starts from the stated initial state and returns the accumulated text and table; an arm the contracts do not know makes the unit undecided. Callees carry contracts proved in other units (push/merge: pt; Locate::str: getstr; try_into fold: derive) or assumed on their real signature (preprocess_inner, resolve_text_macro_usage, identifier). Grammar invariants (each node has a contiguous leaf inside s, identifiers present) are preconditions.'
 PROPS['C04'] = dict(
     title='conditional compilation',
-    units=['arms', 'pphelp', 'glue', 'derive', 'getstr', 'prologue', 'rtmu', 'kwstack'],
+    units=['arms', 'pphelp', 'glue', 'derive', 'getstr', 'prologue', 'rtmu', 'kwstack', 'wrap'],
     shims=['A-glue', 'A-hashmap', 'A-str', 'A-node', 'A-pplex'],
     design='DESIGN.md 3/C04',
     technique='contract-based deductive verification (Verus) of the verbatim IfdefDirective / IfndefDirective arms against an IEEE 22.6 selection spec function, loop invariant over the `elsif chain',
@@ -95,7 +95,7 @@ PROPS['C04'] = dict(
 )
 PROPS['C05'] = dict(
     title='macro expansion',
-    units=['arms', 'depth', 'split', 'rtmu', 'pphelp', 'derive', 'getstr', 'prologue', 'kwstack'],
+    units=['arms', 'depth', 'split', 'rtmu', 'pphelp', 'derive', 'getstr', 'prologue', 'kwstack', 'wrap'],
     shims=['A-glue', 'A-hashmap', 'A-str', 'A-arith', 'A-pplex'],
     design='DESIGN.md 3/C05',
     technique='contract-based deductive verification (Verus) of the verbatim TextMacroUsage arm and of the actual/formal binding block of resolve_text_macro_usage',
@@ -105,7 +105,7 @@ PROPS['C05'] = dict(
 )
 PROPS['C06'] = dict(
     title='pass-through',
-    units=['arms', 'pt', 'glue', 'loc', 'derive', 'getstr', 'pphelp'],
+    units=['arms', 'pt', 'glue', 'loc', 'derive', 'getstr', 'pphelp', 'wrap', 'depth'],
     shims=['A-glue', 'A-str', 'A-pplex'],
     design='DESIGN.md 3/C06',
     technique='contract-based deductive verification (Verus) of the directive-free emission arms (copy exactly the bytes of their own leaf, identity origin) plus once-only obligations',
